@@ -1,0 +1,26 @@
+//go:build verif
+
+package runtime
+
+import "sort"
+
+// VerifScopeInfo - (verification hook) read-only: per module ID, the current block
+// depth and the number of live symbols of its symbol stack.
+func (vm *VM) VerifScopeInfo() [][3]int {
+	res := [][3]int{}
+	for id, sp := range vm.valueStack {
+		res = append(res, [3]int{id, sp.currentDepth, sp.localCount})
+	}
+	sort.Slice(res, func(i, j int) bool { return res[i][0] < res[j][0] })
+	return res
+}
+
+// VerifCallStackInfo - (verification hook) read-only: (module ID, call type, current line)
+// of every frame on the call stack, outermost first.
+func (vm *VM) VerifCallStackInfo() [][3]int {
+	res := [][3]int{}
+	for _, cf := range vm.callStack[:vm.csCount] {
+		res = append(res, [3]int{cf.module.GetID(), int(cf.callType), cf.currentLine})
+	}
+	return res
+}
